@@ -28,7 +28,7 @@ def _worker(args):
     for m in modnames:
         importlib.import_module(m)
     from pyvc.verify import verify_contract, verify_lemma
-    contracts = {c.target: c for c in S.REGISTRY}
+    contracts = {c.name: c for c in S.REGISTRY}
     for c in S.REGISTRY:
         try:
             c.bind()
@@ -147,7 +147,7 @@ def main(argv):
     for idx, c in enumerate(S.REGISTRY):
         if prop in c.property_ids:
             jobs.append(("contract", idx, tier, modnames))
-            spec_of[c.target] = c.cls.__module__
+            spec_of[c.name] = c.cls.__module__
     for idx, l in enumerate(S.LEMMAS):
         if prop in l.property_ids:
             jobs.append(("lemma", idx, tier, modnames))
